@@ -258,7 +258,7 @@ func rawHex(tx *types.Tx) (string, error) {
 // only ever spend harness-owned (OP_TRUE) outputs and wallet transactions are signed.
 
 type wTx struct {
-	Kind string `json:"kind"` // pay paysmall payvote issuepay wspend wveto wvote wxfer
+	Kind string `json:"kind"` // pay paysmall payvote issuepay wspend wveto wvote wxfer wmerge
 	Pick int    `json:"pick"`
 	To   int    `json:"to"`
 	Amt  int    `json:"amt"`
@@ -472,6 +472,36 @@ func (e *env) resolve(v *view, d wTx, salt uint64) (*types.Tx, error) {
 			to = progTrue
 		}
 		return e.walletTx([]*ck.Utxo{a}, []*types.TxOutput{types.NewOriginalTxOutput(btm, a.Amount-walletFee, to, nil)}, d.Amt)
+	case "wmerge":
+		// several wallet inputs of mixed kinds (normal, matured reward, unlocked vote) in one
+		// transaction, in an order the selectors choose
+		pool := v.filter(func(u *ck.Utxo) bool {
+			return u.Asset == btm && e.owned(u) && p.Spendable(u, h) && u.Amount >= 3*walletFee
+		})
+		if len(pool) < 2 {
+			return nil, nil
+		}
+		k := 2 + abs(d.Amt)%2
+		var ins []*ck.Utxo
+		seen := map[bc.Hash]bool{}
+		var total uint64
+		for i := 0; i < k; i++ {
+			u := pool[(abs(d.Pick)+i*(1+abs(d.N)))%len(pool)]
+			if seen[u.ID] {
+				continue
+			}
+			seen[u.ID] = true
+			ins = append(ins, u)
+			total += u.Amount
+		}
+		if len(ins) < 2 {
+			return nil, nil
+		}
+		to := e.prog(d.To)
+		if abs(d.N)%4 == 3 {
+			to = progTrue
+		}
+		return e.walletTx(ins, []*types.TxOutput{types.NewOriginalTxOutput(btm, total-walletFee, to, nil)}, d.Amt)
 	case "wxfer":
 		a := pickU(v.filter(func(u *ck.Utxo) bool { return u.Asset != btm && u.Kind == ck.KindNormal && e.owned(u) }), d.Pick)
 		g := pickU(walletBTM, d.Pick/3)
